@@ -4,6 +4,7 @@ import TplModel.Html.CodeScan
 import TplModel.Exp.Parse
 import TplModel.Exp.Eval
 import TplModel.Driver.Values
+import TplModel.Html.Engine
 /-! Request handlers of the JSON-lines driver: one JSON object in, one JSON object out. -/
 namespace Ops
 open Lean (Json)
@@ -92,7 +93,7 @@ def evalOp (j : Json) : Json :=
       let calls := Json.arr (st.calls.reverse.toArray.map Json.str)
       if st.unsupported then Json.mkObj [("r", "unsupported")] else
       match st.err with
-      | some err => Json.mkObj [("r", "err"), ("sentinel", err.sentinel), ("calls", calls)]
+      | some err => Json.mkObj [("r", "err"), ("sentinel", err.sentinel), ("nosuch", err.nosuch), ("calls", calls)]
       | none =>
         let c := canon v
         if (c.splitOn unsupportedMark).length > 1 then Json.mkObj [("r", "unsupported")]
@@ -106,5 +107,72 @@ def scopegetOp (j : Json) : Json :=
   | .found v => Json.mkObj [("r", "found"), ("v", canon v)]
   | .absent => Json.mkObj [("r", "absent")]
   | .failed => Json.mkObj [("r", "failed")]
+
+
+/-! ### whole engine: load files into a manager, look a template up, execute it (faithful model and specification) -/
+
+def clsJ : RN.Cls → Json
+  | .eval s n => Json.mkObj [("cls", "eval"), ("sentinel", s), ("nosuch", n)]
+  | .attrValueExpected => Json.mkObj [("cls", "attrValueExpected")]
+  | .withSyntax => Json.mkObj [("cls", "withSyntax")]
+  | .unexpectedElse => Json.mkObj [("cls", "unexpectedElse")]
+  | .rangeObject => Json.mkObj [("cls", "rangeObject")]
+  | .rangeKind => Json.mkObj [("cls", "rangeKind")]
+  | .tplNotFound => Json.mkObj [("cls", "tplNotFound")]
+  | .tooDeep => Json.mkObj [("cls", "tooDeep")]
+  | .nilTag => Json.mkObj [("cls", "nilTag")]
+
+def statusJ : RN.Status → Json
+  | .ok => "ok"
+  | .fuel => "fuel"
+  | .err c => Json.mkObj [("err", clsJ c)]
+
+def runJ (st : RN.Status) (out log : List String) : Json :=
+  Json.mkObj [("st", statusJ st), ("chunks", Json.arr (out.toArray.map Json.str)),
+    ("log", Json.arr ((log.filter (· ≠ EN.unsupportedEv)).toArray.map Json.str))]
+
+def cfgOfJ (j : Json) : EN.Cfg :=
+  let c := (j.getObjVal? "cfg").toOption.getD (Json.mkObj [])
+  let d : EN.Cfg := {}
+  { textTags := ((c.getObjValAs? (Array String) "textTags").toOption.map (·.toList)).getD d.textTags,
+    voidTags := ((c.getObjValAs? (Array String) "voidTags").toOption.map (·.toList)).getD d.voidTags,
+    tagPrefix := (str? c "tagPrefix").getD d.tagPrefix,
+    attrPrefix := (str? c "attrPrefix").getD d.attrPrefix }
+
+def loadFiles (cfg : EN.Cfg) (fns : List (String × EV.FnSpec)) (files : List (Array String)) : EN.LoadRes EN.Mgr :=
+  let rec go (i : Nat) (fs : List (Array String)) (m : EN.Mgr) : EN.LoadRes EN.Mgr :=
+    match fs with
+    | [] => .ok m
+    | f :: rest =>
+      match EN.addFile cfg fns (i + 1) (f[0]!) (f[1]!) m with
+      | .ok m' => go (i + 1) rest m'
+      | r => r
+  go 0 files { cfg := cfg, templates := [], files := [], cx := { exprs := #[], fns := fns } }
+
+/-- {"op":"render","files":[[name,src]…],"tpl":name,"data":tv,"global":tv,"fns":{…},"cfg":{…}} -/
+def renderOp (j : Json) : Json :=
+  let files := (j.getObjValAs? (Array (Array String)) "files").toOption.getD #[]
+  let tplName := (str? j "tpl").getD ""
+  let fns := fnsOfJson ((j.getObjVal? "fns").toOption.getD .null)
+  let cfg := cfgOfJ j
+  match loadFiles cfg fns files.toList with
+  | .err => Json.mkObj [("load", "err")]
+  | .panic => Json.mkObj [("load", "panic")]
+  | .unsupported => Json.mkObj [("load", "unsupported")]
+  | .ok m =>
+    let names := Json.arr ((m.templates.map (·.1)).toArray.map Json.str)
+    match m.templates.find? (·.1 == tplName) with
+    | none => Json.mkObj [("load", "ok"), ("get", "notfound"), ("templates", names)]
+    | some (_, root) =>
+      let dv := match valOfJson ((j.getObjVal? "data").toOption.getD .null) with | .nil => EN.emptyMap | v => v
+      let gv := match valOfJson ((j.getObjVal? "global").toOption.getD .null) with | .nil => EN.emptyMap | v => v
+      let env := EN.envOf m
+      let rc := EN.rcfgOf cfg
+      let fuel := EN.fuelFor m
+      let r := RN.execute rc env fuel root [dv, gv]
+      let q := RN.refExecute rc env fuel root [dv, gv]
+      if r.log.contains EN.unsupportedEv || q.log.contains EN.unsupportedEv then Json.mkObj [("load", "unsupported")]
+      else Json.mkObj [("load", "ok"), ("get", "found"), ("templates", names),
+        ("impl", runJ r.st r.out r.log), ("spec", runJ q.st q.out q.log)]
 
 end Ops
